@@ -27,6 +27,7 @@ import (
 	"time"
 
 	"verif/sim/kit"
+	"verif/sim/kit/instrument"
 	_ "verif/sim/specs"
 )
 
@@ -79,8 +80,17 @@ func buildEngine(engine string, race bool) string {
 	if race {
 		args = append(args, "-race")
 	}
-	if ov := os.Getenv("VERIF_OVERLAY"); ov != "" {
-		// mutation testing: substitute files of /repo at compile time without touching /repo
+	ov := os.Getenv("VERIF_OVERLAY") // mutation testing: substitute files of /repo at compile time without touching /repo
+	if files := kit.EngineInstrument[engine]; len(files) > 0 {
+		// lock sites of these files become scheduling points (rewritten copies, regenerated from the current tree)
+		p, n, err := instrument.Build("/repo", files, ov, filepath.Join(tmpDir, "instr-"+engine))
+		if err != nil {
+			die2("instrumenting lock sites for engine %s: %v", engine, err)
+		}
+		fmt.Printf("instrumented %d lock sites in %v\n", n, files)
+		ov = p
+	}
+	if ov != "" {
 		args = append(args, "-overlay", ov)
 	}
 	args = append(args, "./engines/"+engine)
@@ -255,9 +265,26 @@ func main() {
 		keepGoing = flag.Bool("no-early-stop", false, "do not stop the batch at the first violation")
 	)
 	genManifest := flag.Bool("gen-manifest", false, "print MANIFEST.json generated from the registry")
+	buildOnly := flag.String("build-engine", "", "build this engine (with its lock-site instrumentation) into bin/<engine>.test and exit (for tools/difflog.py)")
 	flag.Parse()
 	if *genManifest {
 		printManifest()
+		return
+	}
+	if *buildOnly != "" {
+		var err error
+		if tmpDir, err = os.MkdirTemp("/dev/shm", "verif-check-"); err != nil {
+			die2("%v", err)
+		}
+		bin := buildEngine(*buildOnly, *race)
+		b, err := os.ReadFile(bin)
+		if err == nil {
+			err = os.WriteFile(filepath.Join(verifRoot, "bin", *buildOnly+".test"), b, 0755)
+		}
+		os.RemoveAll(tmpDir)
+		if err != nil {
+			die2("%v", err)
+		}
 		return
 	}
 	if *tier == "" {
